@@ -252,7 +252,7 @@ theorem signals_spec (E : Env) (S : Schema) (old : Elem) (x : Input) (out : SetO
           intro s hs
           obtain ⟨c, hc, hi⟩ := List.mem_flatMap.mp hs
           exact mergeCalls_ne _ _ c hc s hi
-  | date =>
+  | date ky km kd =>
     cases x with
     | leaf n =>
       simp only [setElem] at h
